@@ -221,8 +221,10 @@ impl Operator {
 }
 
 fn escape_filter_value(value: &str) -> Cow<'_, str> {
-    if value.contains('"') {
-        Cow::Owned(value.replace('"', r#"\\""#))
+    if value.contains('"') || value.contains('\\') {
+        // The server unescapes a backslash twice (once in the request tokenizer, once in the filter
+        // parser), so a literal backslash has to be sent as four
+        Cow::Owned(value.replace('\\', r"\\\\").replace('"', r#"\\""#))
     } else {
         Cow::Borrowed(value)
     }
